@@ -199,3 +199,34 @@ def behaviour (cl : Rename.CmdLine) : Option Behaviour :=
   | _, _, _, _, _ => none
 
 end Gotree.C19.Setrand
+
+/-
+  `gotree repopulate` (cmd/repopulate.go:57-62): refuses to run when --id-groups holds the sentinel
+  "none" (its documented default).  Before fix 4cde097 it asked whether the option was *given*
+  (`Flags().Changed("id-groups")`) and did not look at the value.
+-/
+namespace Gotree.C19.Repopulate
+
+/-- does the command go on to read the group file?  (the code as it is: by value) -/
+def accepts (_groupsGiven : Bool) (file : String) : Bool := file != "none"
+
+/-- the test before 4cde097 -/
+def acceptsPinned (groupsGiven : Bool) (_file : String) : Bool := groupsGiven
+
+def defaultGroups : String := "none"
+
+/-- value of --id-groups on a command line of the templates ("-g f", "--id-groups f", "--id-groups=f") -/
+def groupsOf : List String → Option String
+  | [] => none
+  | a :: rest =>
+    if a == "-g" || a == "--id-groups" then
+      match groupsOf rest with
+      | some v => some v           -- the last occurrence wins
+      | none => rest.head?
+    else if a.startsWith "--id-groups=" then
+      match groupsOf rest with
+      | some v => some v
+      | none => some (String.ofList (a.toList.drop 12))
+    else groupsOf rest
+
+end Gotree.C19.Repopulate
